@@ -20,8 +20,16 @@ from tools.facts.common import fresh_import
 
 WAIT = {'all': all, 'any': any, 'object': object, 'none': None}
 # what a member that "returns a value" returns: truthy and falsy-but-not-None objects
-VALUES = [lambda i: ('value', i), lambda i: 0, lambda i: False, lambda i: '', lambda i: [],
-          lambda i: 0.0, lambda i: i + 1]
+VALUES = [lambda i: ('value', i), lambda i: 0, lambda i: KeyError('returned, not raised', i),
+          lambda i: False, lambda i: asyncio.CancelledError('returned, not raised'),
+          lambda i: '', lambda i: [], lambda i: 0.0, lambda i: i + 1]
+
+
+def same_value(a, b):
+    """equality that also works for returned exception instances"""
+    if isinstance(a, BaseException) or isinstance(b, BaseException):
+        return type(a) is type(b) and a.args == b.args
+    return a == b and type(a) is type(b)
 
 
 class Impl:
@@ -218,6 +226,37 @@ class Impl:
         }
         return rec
 
+    def micro_drain(self, r):
+        self.obs = []
+        for i, st in list(self.status.items()):
+            if st == 'run' and not self.gate[i].done():
+                self.gate[i].set_result('v')
+            elif st == 'canc' and not self.gate2[i].done():
+                self.gate2[i].set_result(None)
+        accepted, refused, alive_at_exit, exit_seen = [], 0, None, False
+        nid = 5000
+        for it in range(400):
+            self.loop.call_soon(self.loop.stop)
+            self.loop.run_forever()
+            if not exit_seen and any(o.startswith('jx') for o in self.obs):
+                exit_seen = True
+                alive_at_exit = sorted(i for i, t in self.task.items() if not t.done())
+            if not exit_seen and it < 60 and r.random() < 0.5:
+                nid += 1
+                try:
+                    self.mk(nid, r.random() < 0.3, ())
+                    accepted.append((it, nid))
+                except RuntimeError:
+                    refused += 1
+                    self.drop(nid)
+            now = self.loop.time()
+            if not self.loop._ready and not any(
+                    not h.cancelled() and h.when() <= now for h in self.loop._scheduled):
+                if exit_seen or it > 60:
+                    break
+        return {'accepted': accepted, 'refused': refused, 'exit_seen': exit_seen,
+                'alive_at_exit': alive_at_exit, 'joined': bool(self.g.joined)}
+
     def close(self):
         try:
             for _ in range(4):
@@ -312,7 +351,7 @@ def rec_key(rec):
 
 
 def run_trace(repo, policy, actions_or_rng, max_steps=14, nmax=6, retain=False,
-              consumer_during_join=True):
+              consumer_during_join=True, micro_rng=None):
     """Either replay a fixed action list or generate one with `rng`.  Returns
     (actions, records, impl snapshot for the oracles)."""
     im = Impl(repo, policy, retain=retain)
@@ -339,6 +378,11 @@ def run_trace(repo, policy, actions_or_rng, max_steps=14, nmax=6, retain=False,
             'waits_in': im.joiner_waits_in(),
             'pending': sorted(i for i in (im.ident(t) for t in im.g._pending) if i is not None),
         }
+        # micro-step probe (oracle only, not part of the model trace): let every unfinished member
+        # finish, then advance the loop ONE iteration at a time and try to add a task from outside
+        # at every iteration - whatever the group accepts must be finished when join returns
+        if micro_rng is not None and im.join_state in ('active', 'cancelled') and not im.g.joined:
+            snap['micro'] = im.micro_drain(micro_rng)
         # "nothing can be added afterwards"
         if im.g.joined:
             snap['add_after_join'] = 'refused'
@@ -348,6 +392,24 @@ def run_trace(repo, policy, actions_or_rng, max_steps=14, nmax=6, retain=False,
                     snap['add_after_join'] = 'accepted' + (' (daemon)' if dm else '')
                 except RuntimeError:
                     im.drop(nid)
+            # ... nor a task that has already finished (returned / raised / cancelled)
+            for kind in ('returned', 'raised', 'cancelled'):
+                async def fin(kind=kind):
+                    if kind == 'raised':
+                        raise KeyError('finished')
+                    if kind == 'cancelled':
+                        raise asyncio.CancelledError()
+                    return 1
+                ft = im.loop.create_task(fin())
+                im.idle()
+                ntasks = len(im.g.tasks)
+                try:
+                    im.g._add_task(ft)
+                    snap['add_after_join'] = f'accepted (already finished: {kind})'
+                except RuntimeError:
+                    pass
+                if ft.done() and not ft.cancelled():
+                    ft.exception()
         if im.g.joined:
             comp = im.g.completed
             try:
